@@ -261,7 +261,7 @@ def replay_generic(ctx, obj):
 
         r = F.real_load(bytes.fromhex(inp["hex"]), SPEC_ONLY[inp["format"]].fmt)
         return True if not r.ok else True  # the checker is regenerated with the seed in a full run; a load failure or any result is re-examined there
-    if inp["kind"] == "corpus":
+    if inp["kind"] in ("corpus", "corpus-variant"):
         return replay_corpus(inp)
     if inp["kind"] == "c02":
         return c02_eval(ad, ad.free_build(inp["spec"])) is not None
@@ -280,7 +280,7 @@ def dumps(o):
 # ---------------------------------------------------------------------------------------------
 # C15: corpus files converted to every format that accepts them
 
-RW_FORMATS = ["xyz", "sdf", "pdb", "mol2", "poscar", "cube", "fcidump", "json", "fchk", "molden", "molekel", "wfn", "wfx"]
+RW_FORMATS = ["xyz", "sdf", "pdb", "mol2", "poscar", "cube", "fcidump", "fchk", "molden", "molekel", "wfn", "wfx"]
 SLOW_SUFFIX = (".molden", ".molden.input", ".mkl")  # readers that recompute overlaps (6-22 s on QZ fixtures)
 
 
@@ -329,7 +329,124 @@ def corpus_cycles(ctx):
                 ctx.fail("corpus:" + res[0], f"{p.name} -> {res[1]}", {"kind": "corpus", "file": p.name, "format": fmt})
 
 
+def _json_inject(obj, depth=0):
+    """add keys the QCSchema specification defines but the corpus never uses (and one unknown key) to every dict that
+    is a schema section: a reader that keeps such keys must hand them to the writer unchanged"""
+    if isinstance(obj, dict):
+        for k, v in list(obj.items()):
+            _json_inject(v, depth + 1)
+        if "protocols" in obj and isinstance(obj["protocols"], dict):
+            obj["protocols"].update({"native_files": "all", "error_correction": {"default_policy": True}, "zz_kept": 1})
+        if "keywords" in obj and isinstance(obj["keywords"], dict):
+            obj["keywords"].update({"zz_option": "value", "keep_this": [1, 2]})
+        if "extras" in obj and isinstance(obj["extras"], dict):
+            obj["extras"].update({"zz_extra": {"nested": [1, {"k": 2}]}})
+        if depth == 0 and "schema_name" in obj:
+            obj.setdefault("extras", {"zz_extra": 1})
+            if obj["schema_name"] in ("qcschema_input", "qcschema_output"):
+                obj.setdefault("protocols", {"wavefunction": "all", "stdout": True, "native_files": "input"})
+                obj.setdefault("keywords", {"zz_option": 3})
+    elif isinstance(obj, list):
+        for v in obj:
+            _json_inject(v, depth + 1)
+    return obj
+
+
+def _no_prov(o):
+    """the same JSON / extra tree without the provenance trail (QCSchema documents that it grows on every save)"""
+    if isinstance(o, dict):
+        return {k: _no_prov(v) for k, v in o.items() if k != "provenance"}
+    if isinstance(o, (list, tuple)):
+        return [_no_prov(v) for v in o]
+    return o
+
+
+def c15_eval_json(x):
+    """C15 for QCSchema: cycles 1, 2, 3 of an object already loaded from a file; everything except the provenance trail
+    must be identical from the first reload on"""
+    import json
+
+    fmt = "json_qcschema"
+    r1 = F.real_dump(x, fmt)
+    if not r1.ok:
+        return None
+    l1 = F.real_load(r1.value, fmt)
+    if not l1.ok:
+        return None
+    r2 = F.real_dump(l1.value, fmt)
+    if not r2.ok:
+        return ("json:gen2-refused", f"QCSchema: the reloaded object is refused on the second save: {r2.exc!r}"[:300])
+    l2 = F.real_load(r2.value, fmt)
+    if not l2.ok:
+        return ("json:gen2-reload-fails", f"QCSchema: second-generation file cannot be read back: {l2.exc!r}"[:300])
+
+    def snap(d):
+        sn = F.snap_iodata(d)
+        sn["extra"] = F.snap(_no_prov(d.extra))
+        return sn
+
+    d = F.snap_diff(snap(l1.value), snap(l2.value))
+    if d:
+        return (f"json:object-drifts:{d[0]}", f"QCSchema: attribute {d[0]} differs between reload 1 and reload 2")
+    r3 = F.real_dump(l2.value, fmt)
+    if not r3.ok:
+        return ("json:gen3-refused", f"QCSchema: third save refused: {r3.exc!r}"[:300])
+    j2, j3 = _no_prov(json.loads(r2.value)), _no_prov(json.loads(r3.value))
+    if j2 != j3:
+        keys = [k for k in set(j2) | set(j3) if j2.get(k) != j3.get(k)]
+        return (f"json:content-drift:{sorted(keys)[0]}", f"QCSchema: generation 2 and 3 files differ (beyond provenance) under {sorted(keys)[:3]}")
+    return None
+
+
+def json_variant_cycles(ctx):
+    """QCSchema corpus files with additional specification-defined / unknown keys: save-reload cycles must settle"""
+    import json
+    import warnings
+
+    from ..engine import REPO
+
+    ddir = REPO / "iodata" / "test" / "data"
+    ad = _Any("json")
+    for p in sorted(ddir.glob("*.json")):
+        try:
+            doc = json.loads(p.read_text())
+        except Exception:  # noqa: BLE001
+            continue
+        raw = json.dumps(_json_inject(doc), indent=1).encode()
+        with warnings.catch_warnings():
+            warnings.simplefilter("ignore")
+            l0 = F.real_load(raw, "json_qcschema")
+            b0 = F.real_load(p.read_bytes(), "json_qcschema")
+        if b0.ok:
+            res0 = c15_eval_json(b0.value)
+            ctx.count("corpus:json_qcschema", p.name, "ok" if res0 is None else "FAIL:" + res0[0])
+            if res0:
+                ctx.fail("corpus:" + res0[0], f"{p.name} -> {res0[1]}", {"kind": "corpus-variant", "file": p.name, "format": "json", "plain": True})
+        if not l0.ok:
+            ctx.count("corpus-variant:json", p.name, "variant-refused")
+            continue
+        res = c15_eval_json(l0.value)
+        ctx.count("corpus-variant:json", p.name, "ok" if res is None else "FAIL:" + res[0])
+        if res:
+            ctx.fail("corpus-variant:" + res[0], f"{p.name} with additional keys -> {res[1]}",
+                     {"kind": "corpus-variant", "file": p.name, "format": "json"})
+
+
 def replay_corpus(inp):
+    if inp.get("kind") == "corpus-variant":
+        import json
+        import warnings
+
+        from ..engine import REPO
+
+        doc = json.loads((REPO / "iodata" / "test" / "data" / inp["file"]).read_text())
+        with warnings.catch_warnings():
+            warnings.simplefilter("ignore")
+            if inp.get("plain"):
+                l0 = F.real_load((REPO / "iodata" / "test" / "data" / inp["file"]).read_bytes(), "json_qcschema")
+            else:
+                l0 = F.real_load(json.dumps(_json_inject(doc), indent=1).encode(), "json_qcschema")
+        return l0.ok and c15_eval_json(l0.value) is not None
     import warnings
 
     from iodata.api import load_one
